@@ -63,6 +63,12 @@ func producersOf(s []int) []producer {
 			add("ConcatLast", []*ref.T{g(a, 85), g(b, 86)}, ref.Node{Op: ref.Op{K: "Concat", Dim: n - 1}, In: []int{0, 1}})
 		}
 		add("Squeeze", []*ref.T{g(append([]int{1}, s...), 87)}, ref.Node{Op: ref.Op{K: "Squeeze", Dim: 0}, In: []int{0}})
+		// a size-1 dimension that was CREATED by UnSqueeze (not present from construction)
+		for d := range s {
+			if s[d] == 1 {
+				add(fmt.Sprintf("UnSqueeze%d", d), []*ref.T{g(ref.RemoveDim(s, d), 92)}, ref.Node{Op: ref.Op{K: "UnSqueeze", Dim: d}, In: []int{0}})
+			}
+		}
 	}
 	if n >= 2 {
 		t := ref.CopyShape(s)
